@@ -1,5 +1,7 @@
 import TLVerif.Tool.OutDirLemmas
 import TLVerif.Tool.RelPathLemmas
+import TLVerif.Tool.LegacyOutDirLemmas
+import TLVerif.Generated.ToolLegacyFacts
 /-!
 # C16 — Output directory management is exact and safe
 
@@ -276,6 +278,126 @@ theorem basictl_rel_path_shape (outdirElems basicElems : List String) (ups : Nat
 
 example : relComponents ["github.com", "VKCOM", "tl", "o1", "o2", "out"] ["github.com", "VKCOM", "tl", "pkg", "basictl"] =
     some (3, ["pkg", "basictl"]) := by decide
+
+/-! ## The legacy generator's writer: `internal/tlcodegen/tlgen.go (*Gen2).WriteToDir` (used by `cmd/tlgen` for cpp / php)
+
+Same guarantees as above, for any starting file system, **except** for the paths `keep` exempts from deletion
+(`cppFilterFile`: for cpp, every path ending in `.o`).  The marker entry is added by the writer itself. -/
+section Legacy
+variable (fmt : Path → String → String) (keep : Path → Bool) (fs : FS) (code : List (Path × String)) (marker mc : String)
+
+theorem legacy_refused_iff :
+    (legacyWrite fmt keep fs code marker mc).outcome = .refused ↔ (relativeFiles fs ≠ [] ∧ marker ∉ relativeFiles fs) :=
+  (legacy_outcome_cases fmt keep fs code marker mc).1
+
+/-- a refused (or internally failed) legacy generation leaves everything as it was -/
+theorem legacy_failed_leaves_fs_unchanged (h : (legacyWrite fmt keep fs code marker mc).outcome ≠ .ok) :
+    (legacyWrite fmt keep fs code marker mc).fs = fs ∧ (legacyWrite fmt keep fs code marker mc).written = [] ∧
+    (legacyWrite fmt keep fs code marker mc).deleted = [] := by
+  by_cases hc : refuseCond fs marker
+  · rw [legacyWrite_refused fmt keep fs code marker mc hc]; exact ⟨rfl, rfl, rfl⟩
+  · by_cases hm : marker ∈ keys code
+    · rw [legacyWrite_twice fmt keep fs code marker mc hc hm]; exact ⟨rfl, rfl, rfl⟩
+    · exact absurd ((legacy_outcome_cases fmt keep fs code marker mc).2.2.mpr ⟨hc, hm⟩) h
+
+/-- **Exactness outside the exemption.**  After a successful legacy generation every path inside the output directory that
+`keep` does not exempt holds exactly this generation's (formatted) file — marker included — or nothing. -/
+theorem legacy_after_success_exact (hnd : (keys code).Nodup)
+    (h : (legacyWrite fmt keep fs code marker mc).outcome = .ok) (p : Path) (hp : isOutside p = false)
+    (hk : keep p = false) :
+    (legacyWrite fmt keep fs code marker mc).fs.lookup p = (alookup p (withMarker code marker mc)).map (fmt p) := by
+  obtain ⟨hc, hm⟩ := (legacy_outcome_cases fmt keep fs code marker mc).2.2.mp h
+  rw [legacy_ok_lookup fmt keep fs code marker mc hnd hc hm p]
+  cases ha : alookup p (withMarker code marker mc) with
+  | some c => rfl
+  | none =>
+    simp only [Option.map_none]
+    by_cases hr : p ∈ relativeFiles fs
+    · rw [if_pos ⟨hr, hk⟩]
+    · rw [if_neg (fun hh => hr hh.1)]
+      have : ¬ (isOutside p = false ∧ (fs.lookup p).isSome = true) := fun hh => hr ((mem_relativeFiles fs p).mpr hh)
+      cases hl : fs.lookup p with
+      | none => rfl
+      | some v => exact absurd ⟨hp, by rw [hl]; rfl⟩ this
+
+/-- An exempt path that this generation produces is still replaced by the generation's file. -/
+theorem legacy_generated_file_wins (hnd : (keys code).Nodup)
+    (h : (legacyWrite fmt keep fs code marker mc).outcome = .ok) (p : Path) (c : String)
+    (hpc : alookup p (withMarker code marker mc) = some c) :
+    (legacyWrite fmt keep fs code marker mc).fs.lookup p = some (fmt p c) := by
+  obtain ⟨hc, hm⟩ := (legacy_outcome_cases fmt keep fs code marker mc).2.2.mp h
+  rw [legacy_ok_lookup fmt keep fs code marker mc hnd hc hm p, hpc]
+
+/-- **The exemption is the only leak, and it is a real one**: a stale file on an exempt path (an object file, for cpp)
+survives every successful generation untouched.  Hence the full-strength statement "exactly the files of this generation"
+is false for the legacy cpp writer whenever such a file exists (known finding, by design: build artefacts). -/
+theorem legacy_exempt_stale_survives (hnd : (keys code).Nodup)
+    (h : (legacyWrite fmt keep fs code marker mc).outcome = .ok) (p : Path)
+    (hk : keep p = true) (hnk : p ∉ keys (withMarker code marker mc)) :
+    (legacyWrite fmt keep fs code marker mc).fs.lookup p = fs.lookup p := by
+  obtain ⟨hc, hm⟩ := (legacy_outcome_cases fmt keep fs code marker mc).2.2.mp h
+  rw [legacy_ok_lookup fmt keep fs code marker mc hnd hc hm p, (alookup_none_iff p _).mpr hnk]
+  simp only []
+  rw [if_neg (fun hh => by rw [hk] at hh; exact absurd hh.2 (by decide))]
+
+/-- what C16 demands of the legacy writer, at full strength -/
+def LegacyExactFullStrength : Prop :=
+  ∀ (fmt : Path → String → String) (keep : Path → Bool) (fs : FS) (code : List (Path × String)) (marker mc : String),
+    (keys code).Nodup → (legacyWrite fmt keep fs code marker mc).outcome = .ok →
+    ∀ p, isOutside p = false →
+      (legacyWrite fmt keep fs code marker mc).fs.lookup p = (alookup p (withMarker code marker mc)).map (fmt p)
+
+/-- the deleted set: exactly the stale, non-exempt files -/
+theorem legacy_deleted_iff (h : (legacyWrite fmt keep fs code marker mc).outcome = .ok) (p : Path) :
+    p ∈ (legacyWrite fmt keep fs code marker mc).deleted ↔
+      p ∈ relativeFiles fs ∧ p ∉ keys (withMarker code marker mc) ∧ keep p = false := by
+  obtain ⟨hc, hm⟩ := (legacy_outcome_cases fmt keep fs code marker mc).2.2.mp h
+  rw [legacyWrite_ok fmt keep fs code marker mc hc hm]
+  exact mem_lDeleted fmt keep fs code marker mc p
+
+/-- the write log: exactly the new or changed files (unchanged files are not rewritten) -/
+theorem legacy_written_iff (hnd : (keys code).Nodup) (h : (legacyWrite fmt keep fs code marker mc).outcome = .ok) (p : Path) :
+    p ∈ (legacyWrite fmt keep fs code marker mc).written ↔
+      ∃ c, alookup p (withMarker code marker mc) = some c ∧ ¬ (p ∈ relativeFiles fs ∧ fs.lookup p = some (fmt p c)) := by
+  obtain ⟨hc, hm⟩ := (legacy_outcome_cases fmt keep fs code marker mc).2.2.mp h
+  exact legacy_ok_written fmt keep fs code marker mc hnd hc hm p
+
+/-- after a success the marker is there, so the next legacy generation is not refused -/
+theorem legacy_next_generation_not_refused (hnd : (keys code).Nodup) (hmi : isOutside marker = false)
+    (h : (legacyWrite fmt keep fs code marker mc).outcome = .ok) (code' : List (Path × String)) :
+    (legacyWrite fmt keep (legacyWrite fmt keep fs code marker mc).fs code' marker mc).outcome ≠ .refused := by
+  intro hr
+  obtain ⟨_, hn⟩ := (legacy_outcome_cases fmt keep _ code' marker mc).1.mp hr
+  apply hn
+  refine (mem_relativeFiles _ marker).mpr ⟨hmi, ?_⟩
+  have hlk : alookup marker (withMarker code marker mc) = some mc := by
+    obtain ⟨_, hm⟩ := (legacy_outcome_cases fmt keep fs code marker mc).2.2.mp h
+    exact alookup_of_mem (nodup_withMarker code marker mc hnd hm) (by simp [withMarker])
+  rw [legacy_generated_file_wins fmt keep fs code marker mc hnd h marker mc hlk]; rfl
+
+end Legacy
+
+/-- counter-example to the full-strength statement: a stale `x.o` next to the marker survives a cpp regeneration -/
+theorem legacy_exact_fails_at : ¬ LegacyExactFullStrength := by
+  intro hfull
+  let keep : Path → Bool := fun p => p == "x.o"
+  let fs0 : FS := ⟨[("x.o", "obj"), ("m", "mk")], []⟩
+  have ho1 : isOutside "x.o" = false := by simp [isOutside]
+  have ho2 : isOutside "m" = false := by simp [isOutside]
+  have hrel : relativeFiles fs0 = ["x.o", "m"] := by
+    simp [relativeFiles, fs0, ho1, ho2]
+  have hc : ¬ refuseCond fs0 "m" := by
+    unfold refuseCond; rw [hrel]; simp
+  have hok : (legacyWrite (fun _ c => c) keep fs0 [] "m" "mk").outcome = .ok :=
+    (legacy_outcome_cases _ keep fs0 [] "m" "mk").2.2.mpr ⟨hc, by simp [keys]⟩
+  have h1 := hfull (fun _ c => c) keep fs0 [] "m" "mk" (by simp [keys]) hok "x.o" ho1
+  have h2 := legacy_exempt_stale_survives (fun _ c => c) keep fs0 [] "m" "mk" (by simp [keys]) hok "x.o" (by simp [keep])
+    (by simp [keys, withMarker])
+  rw [h2] at h1
+  simp [FS.lookup, alookup, withMarker, fs0] at h1
+
+/-- the legacy marker file name is the constant of the source (regenerated on every run) -/
+theorem legacy_marker_fact : TLVerif.Facts.ToolLegacy.legacyMarkerFile = "tlgen2_version.txt" := by decide
 
 /-- (build-time test, evaluated by `#guard`) the hypotheses are satisfiable by a non-trivial history and the
 refusal / stale deletion / directory pruning branches are reachable -/
